@@ -220,9 +220,17 @@ impl DFA {
     }
 }
 
-#[derive(Debug, Clone, Default, PartialEq, Eq)]
+#[derive(Debug, Clone, Default, Eq)]
 pub struct InpInternPool {
     store: IndexSet<Inp>,
+}
+
+// InpIds are indices into `store`, so two pools are interchangeable only if they list the same
+// inputs in the same order (IndexSet's own equality ignores the order).
+impl PartialEq for InpInternPool {
+    fn eq(&self, other: &Self) -> bool {
+        self.store.len() == other.store.len() && self.store.iter().eq(other.store.iter())
+    }
 }
 
 impl std::hash::Hash for InpInternPool {
